@@ -289,7 +289,8 @@ func (e *PathMatchExpression) match(segs segments, base *Path, candidate *Path) 
 		}
 		p = p.Parent
 		if p == nil {
-			panic("illegal call : base was not found to be any parent of candidate")
+			// selector is longer than the candidate is deep below base: no match
+			return false
 		}
 		j--
 	}
